@@ -178,7 +178,18 @@ func GenDoc(r *Rand, o DocOpts) model.Doc {
 		if r.Chance(40) {
 			d.PrefixDeny = append(d.PrefixDeny, PickOf(r, "10.0.1.0/24", "10.4.0.0/16", "10.0.0.128/25", "192.168.0.0/16", "2001:db8:4::/48"))
 		}
-		if r.Chance(30) {
+		// a deny prefix strictly wider than an allow prefix (its network address lies outside
+		// every allowed range): everything in that allow prefix is still refused
+		wide := o.Filters && r.Chance(15)
+		if wide {
+			d.PrefixDeny = append(d.PrefixDeny, PickOf(r, "10.0.0.0/12", "10.0.0.0/9", "2001:db8::/46"))
+		}
+		if wide {
+			d.PrefixAllow = append(d.PrefixAllow, PickOf(r, "10.4.0.0/16", "10.8.0.0/13", "10.0.1.0/24", "2001:db8:2::/48"))
+			if r.Chance(50) {
+				d.PrefixAllow = append(d.PrefixAllow, PickOf(r, "10.0.0.0/16", "2001:db8:1::/48", "10.64.0.0/10"))
+			}
+		} else if r.Chance(30) {
 			d.PrefixAllow = append(d.PrefixAllow, PickOf(r, "10.0.0.0/8", "10.0.0.0/16", "10.0.0.0/9", "2001:db8::/32"))
 			if r.Chance(50) {
 				d.PrefixAllow = append(d.PrefixAllow, PickOf(r, "10.4.0.0/16", "2001:db8::/32", "10.8.0.0/13"))
